@@ -418,7 +418,7 @@ func (i InfixExpression) printRight(out *PrintState) {
 		// Infix operators are left associative: a right operand of the same precedence was
 		// parenthesized in the source (a-(b-c)) and must stay so, or it would re-parse as (a-b)-c.
 		if !out.AllParens && Precedences[right.Type()] == out.ExpressionPrecedence &&
-			!(right.Type() == i.Type() && associative(i.Type())) {
+			!(associative(i.Type()) && sameOperatorChain(right, i.Type())) {
 			out.Print("(")
 			right.PrettyPrint(out)
 			out.Print(")")
@@ -439,6 +439,19 @@ func associative(t token.Type) bool {
 	default:
 		return false
 	}
+}
+
+// Is n, printed without parentheses, a chain "x op y op z" of that single operator at its precedence level?
+// (a + (b|c + d) must keep its parentheses even though the right operand is a +.)
+func sameOperatorChain(n *InfixExpression, op token.Type) bool {
+	if n.Type() != op {
+		return false
+	}
+	left, ok := n.Left.(*InfixExpression)
+	if !ok || Precedences[left.Type()] != Precedences[op] {
+		return true
+	}
+	return sameOperatorChain(left, op)
 }
 
 type Boolean struct {
